@@ -1,4 +1,5 @@
 import Golem.Props.C07
+import Golem.Props.C07Gen
 open Golem.Props.C07
 #print axioms lift_first_failure_run
 #print axioms lift_first_failure
@@ -10,3 +11,16 @@ open Golem.Props.C07
 #print axioms emit_lift_first_failure
 #print axioms emit_try_partition
 #print axioms unfold_lift_first_failure
+#print axioms lift_first_failure_gen
+#print axioms try_partition_gen
+#print axioms tryF_partition_gen
+#print axioms Golem.Props.Stage.PipeCatch.catch_gen
+#print axioms Golem.Props.Stage.PipeCatch.catchF_gen
+#print axioms Golem.Props.Stage.PipeCatch.errch_gen
+#print axioms Golem.Props.Stage.PipeCatch.errchF_gen
+#print axioms Golem.Props.Stage.PipeMap.stage_gen
+#print axioms Golem.Props.Stage.PipeMap.cfg_gen
+#print axioms Golem.Props.Stage.PipeMap.init_gen
+#print axioms Golem.Props.Stage.PipeFMap.stage_gen
+#print axioms Golem.Props.Stage.PipeFMap.cfg_gen
+#print axioms Golem.Props.Stage.PipeFMap.init_gen
